@@ -117,6 +117,16 @@ with server name `name`, the start of `ServeTCP` arrives at exactly that name. -
 theorem std_route_agree (s name : Bytes) (h : stdRoute s = some name) : sniRoute s = .ok name :=
   Lemmas.C10.sniRoute_std s name h
 
+/-- The same with crypto/tls's reading of the message (`stdServerName 255`: no bound on the session id, the
+bodies of the other extensions opaque): if the first record holds a complete message which that reading accepts
+with name `name`, and the session id has at most the 32 bytes RFC 5246 allows, `ServeTCP` arrives at `name`. -/
+theorem tls_route_agree (s msg name : Bytes) (rh : RawHello) (hm : firstMessage maxRecordLen s = some msg)
+    (hf : frame msg = some rh) (h : stdServerName 255 msg = some name) (hsid : rh.sessionId.length ≤ 32) :
+    sniRoute s = .ok name := by
+  unfold stdServerName at h
+  rw [hf] at h
+  exact Lemmas.C10.sniRoute_of_message 255 s msg name rh hm hf h hsid
+
 /-- The strict reader is not vacuous: it accepts the encoding of **every** well-formed hello (extension lists
 of any length and sizes), with the hello's server name. Together with `std_accepts_agree` this is a second,
 independent route to `Props.C10.parse_encode`. -/
